@@ -737,6 +737,7 @@ class SmtLibParser(object):
         # pylint: disable=unused-argument
         self.consume_opening(tokens, "expression")
         newvals = {}
+        deferred: List[str] = []
         current = "("
         self.consume_opening(tokens, "expression")
         while current != ")":
@@ -746,9 +747,20 @@ class SmtLibParser(object):
             vname = self.parse_atom(tokens, "expression")
             expr = cast(Union[str, FNode], assert_not_none(self.get_expression(tokens)))
             newvals[vname] = expr
-            self.cache.bind(vname, expr)
+            # The bindings of a let are simultaneous: a name that is
+            # visible in the enclosing scope keeps its outer meaning in
+            # the other bindings and is re-bound only for the body.
+            # (A name that is not defined outside is made visible at
+            # once: this extension accepts let* style inputs.)
+            if self.cache.get(vname) is None:
+                self.cache.bind(vname, expr)
+            else:
+                deferred.append(vname)
             self.consume_closing(tokens, "expression")
             current = tokens.consume()
+
+        for vname in deferred:
+            self.cache.bind(vname, newvals[vname])
 
         stack[-1].append(self._exit_let)
         stack[-1].append(newvals.keys())
